@@ -87,6 +87,10 @@ def gen_base(rng, tier, index):
             case["functor_quota"] = max(1, -(-total // (case["workers"] - 1))) + 1
         for c in case["calls"]:
             c["durations"] = {"mode": "hash", "t": 0.02}
+    if index % 16 == 0:
+        case["in_mp_child"] = True          # the pool lives in a child process of the multiprocessing package (a service process)
+    if index % 16 == 1:
+        case["exit_in_other_thread"] = True     # the context is entered by one thread and left by another
     if index % 4 == 1:
         case["body_raises"] = True          # the with-block is left through an exception
     if case.get("quota") and index % 3 == 1:
